@@ -172,6 +172,17 @@ def r3(ctx):
                 ctx.check("C11.R3", bool(notifies) and head not in r, key(f, "notify-every-iteration|%d" % loops.index(w)), site(f, w.test),
                           "an iteration of an `alive` loop of %s can complete without self.notify(): a healthy worker that stays in this loop (e.g. a never-empty accept backlog) "
                           "stops beating and is killed for inactivity" % f.short, "notify on every iteration")
+            # serving is never repeated without a beat: no cycle through a call that accepts/serves a connection avoids
+            # notify() (bounded `for` loops over the ready listeners excepted) -- whatever loop shape the cycle has
+            all_notifies = [n for c in method_calls(f, "notify") if tail(c.func.value) == "self" for n in nodes_with(f, c)]
+            fors = [n for n in g.nodes if n.kind == "for"]
+            serves = [n for c, q in repo.calls_in(f) if q and q.rsplit(".", 1)[-1] in ("accept", "handle", "handle_request") and isinstance(c.func, ast.Attribute) and tail(c.func.value) == "self"
+                      for n in nodes_with(f, c)]
+            for a in serves:
+                r = g.reachable([(a, "next")], without_nodes=all_notifies + fors, follow_exc=True)
+                ctx.check("C11.R3", a not in r, key(f, "serve-cycle-beats|" + a.text[:40]), site(f, a),
+                          "`%s` can be repeated in a loop of %s that never calls self.notify(): under a never-empty backlog a healthy worker stops beating and is killed for inactivity" % (a.text[:60], f.short),
+                          "every serving cycle passes notify()")
             w = loops[0]
             # blocking calls in the loop
             for c in [x for x in ast.walk(w) if isinstance(x, ast.Call)]:
